@@ -48,7 +48,7 @@ static std::string run_case(const Case& cs, long* free_slot_cells = nullptr) {
         for (const face& f : c->face_lst_) if (f.is_used_) e.tri.push_back({rank[f.n1_id_], rank[f.n2_id_], rank[f.n3_id_]}); ex.push_back(e); }
     std::string cp = g_dir + "/cells.vtk", fp = g_dir + "/faces.vtk"; std::remove(cp.c_str()); std::remove(fp.c_str());
     std::string err; char buf[400];
-    try { if (cs.writer == 0) mesh_writer::write(cp, fp, cells); else mesh_writer::write_cell_data_file(cp, cells, true); }
+    try { if (cs.writer == 0) mesh_writer::write(cp, fp, cells); else mesh_writer::write_cell_data_file(cp, cells, cs.writer == 1); }
     catch (std::exception& e) { err = std::string("writer-threw-on-a-valid-population: ") + e.what(); }
     Parsed P;
     if (g_digest) { std::ifstream f(cp); std::stringstream ss; ss << f.rdbuf(); *g_digest += ss.str(); }
@@ -56,6 +56,10 @@ static std::string run_case(const Case& cs, long* free_slot_cells = nullptr) {
     if (err.empty() && cs.writer == 0) { Parsed PF; std::string e2 = tokenize(fp, PF, true); if (!e2.empty()) {
         // the face-data file carries two FIELD blocks (cell data on faces, then point data); only its geometry section counts are checked here
         if (e2.rfind("unexpected-trailing-content", 0) != 0 && e2.rfind("CELL_DATA-count", 0) != 0 && e2.rfind("field-length", 0) != 0 && e2.rfind("CELL_TYPES-count-differs", 0) != 0) err = "face-data-file: " + e2; } }
+    // writer 2 = write_cell_data_file(path, cells, rebase = false) (what the polarization writer calls): the cells are written as they are, unused slots included; the file must still be
+    // consistent with its own declared counts and readable
+    if (cs.writer == 2) { if (err.empty()) try { mesh_reader rd(cp, false); std::vector<mesh> ms = rd.read(); if (ms.size() != cells.size()) { snprintf(buf, sizeof buf, "reader-returns-different-number-of-cells: %zu vs %zu", ms.size(), cells.size()); err = buf; } } catch (std::exception& e) { err = std::string("reader-rejects-a-file-the-writer-produced: ") + e.what(); }
+        for (auto& c : cells) c->clear_data(); return err; }
     if (err.empty()) { size_t tot = 0; for (auto& e : ex) tot += e.pos.size(); if (P.pts.size() != 3 * tot) { snprintf(buf, sizeof buf, "point-count-differs-from-live-nodes: file has %zu points, population has %zu live nodes", P.pts.size() / 3, tot); err = buf; }
         else if (P.cells.size() != ex.size()) { snprintf(buf, sizeof buf, "cell-count-differs: file %zu population %zu", P.cells.size(), ex.size()); err = buf; } }
     // real reader
@@ -83,7 +87,7 @@ static std::string run_case(const Case& cs, long* free_slot_cells = nullptr) {
 
 static std::string case_text(const Case& c) { std::ostringstream o; o << c.xform << " " << c.writer << " " << c.cells.size(); for (auto& s : c.cells) o << " " << s.mesh << " " << s.type << " " << s.history; o << " " << c.ids; return o.str(); }
 static Case case_parse(const std::string& s) { std::istringstream i(s); Case c; size_t n; i >> c.xform >> c.writer >> n; c.cells.resize(n); for (auto& x : c.cells) i >> x.mesh >> x.type >> x.history; if (!(i >> c.ids)) c.ids = 0; return c; }
-static std::string case_json(const Case& c) { std::ostringstream o; o << "{\"persistent_ids\":\"" << (c.ids == 1 ? "2*position+1" : c.ids == 2 ? "70000+3*position" : "position") << "\",\"writer\":\"" << (c.writer ? "write_cell_data_file" : "mesh_writer::write") << "\",\"coordinate_transform\":" << c.xform << ",\"cells\":["; for (size_t i = 0; i < c.cells.size(); i++) { if (i) o << ","; o << "{\"mesh\":\"" << g_meshes[c.cells[i].mesh].name << "\",\"type\":" << c.cells[i].type << ",\"history\":" << c.cells[i].history << "}"; } o << "]}"; return o.str(); }
+static std::string case_json(const Case& c) { std::ostringstream o; o << "{\"persistent_ids\":\"" << (c.ids == 1 ? "2*position+1" : c.ids == 2 ? "70000+3*position" : "position") << "\",\"writer\":\"" << (c.writer == 2 ? "write_cell_data_file(no compaction)" : c.writer ? "write_cell_data_file" : "mesh_writer::write") << "\",\"coordinate_transform\":" << c.xform << ",\"cells\":["; for (size_t i = 0; i < c.cells.size(); i++) { if (i) o << ","; o << "{\"mesh\":\"" << g_meshes[c.cells[i].mesh].name << "\",\"type\":" << c.cells[i].type << ",\"history\":" << c.cells[i].history << "}"; } o << "]}"; return o.str(); }
 
 static void setup() { using namespace sc; g_meshes = {tetrahedron(), octahedron(), cube12(), icosahedron(), dented_cube(), icosphere(1), icosphere(6) /* index 6: 40962 nodes, only used by the one large population */}; g_dir = std::string(getenv("VERIF_DIR") ? getenv("VERIF_DIR") : ".") + "/build/run/C16-" + std::to_string(getpid()); std::filesystem::create_directories(g_dir); }
 
@@ -96,6 +100,9 @@ static void explore(Result& R) {
     // pairs and triples: type combinations x a few meshes (node offsets of the second/third cell matter)
     for (int t1 = 0; t1 < 5; t1++) for (int t2 = 0; t2 < 5; t2++) for (int h1 : {0, 2}) for (int h2 : {0, 3}) for (int x : {0, 2, NS + 1, 4, 5}) for (int w = 0; w < 2; w++) { if (x >= 4 && x < NS && (t1 + t2) % 2) continue; all.push_back({{{1, t1, h1}, {2, t2, h2}}, x, w}); }
     for (int m1 = 0; m1 < nm; m1++) for (int m2 = 0; m2 < nm; m2++) for (int m3 : {0, 3, 5}) for (int h : {0, 2}) { if (!th && (m1 + m2) % 2) continue; all.push_back({{{m1, 0, h}, {m2, 1, 0}, {m3, 3, h}}, NS, 0}); all.push_back({{{m1, 2, 0}, {m2, 4, h}, {m3, 0, 3}}, 0, 1}); }
+    // the uncompacted writer on every single cell with a remeshing history and on pairs (the offsets of the second cell depend on the slots of the first)
+    for (int m = 0; m < nm; m++) for (int t : {0, 1, 4}) for (int h = 1; h < 5; h++) for (int x : {0, 2}) all.push_back({{{m, t, h}}, x, 2});
+    for (int t1 : {0, 2}) for (int h1 : {2, 3}) for (int h2 : {0, 3}) all.push_back({{{1, t1, h1}, {2, 1, h2}}, 0, 2});
     // one large population: two cells of 40962 nodes / 81920 triangles each (point and cell numbers beyond 16 bits, offsets of the second cell beyond 32767)
     for (int w = 0; w < 2; w++) all.push_back({{{6, 0, 0}, {6, 2, 0}}, 0, w});
     { size_t n0 = all.size(); for (size_t i = 0; i < n0; i++) if (all[i].cells.size() >= 2 && (th || i % 2 == 0)) { Case c = all[i]; c.ids = 1; all.push_back(c); if (i % 4 == 0) { c.ids = 2; all.push_back(c); } } }   // the same populations with persistent ids that differ from the list positions
